@@ -28,7 +28,10 @@ type c19Case struct {
 	Backend  string `json:"backend"`
 	HolderOp string `json:"holder_op"`
 	Waiter   bool   `json:"waiter"`
-	Choices  []int  `json:"choices,omitempty"`
+	// HolderCtx "deadline": the holder takes the lock under a caller context that carries its own
+	// deadline, one lock TTL away (a request with a time budget); "" = no deadline.
+	HolderCtx string `json:"holder_ctx,omitempty"`
+	Choices   []int  `json:"choices,omitempty"`
 }
 
 // keep-alive interval of the etcd client for a lease of lockTTL seconds is TTL/3; its send
@@ -69,10 +72,16 @@ func c19Scenario(cc *c19Case) *schedScenario {
 			return
 		}
 		var lctx context.Context
+		callCtx := ctx
+		if cc.HolderCtx == "deadline" {
+			var cancel context.CancelFunc
+			callCtx, cancel = context.WithTimeout(ctx, lockTTL)
+			defer cancel()
+		}
 		if cc.HolderOp == "trylock" {
-			lctx, err = lk.TryLock(ctx)
+			lctx, err = lk.TryLock(callCtx)
 		} else {
-			lctx, err = lk.Lock(ctx)
+			lctx, err = lk.Lock(callCtx)
 		}
 		if err != nil {
 			o.hErr = err.Error()
@@ -162,7 +171,7 @@ func c19Explore(t *testing.T, c *vcore.Ctx) {
 	if dir == "" {
 		dir = t.TempDir()
 	}
-	c.SetRule("holder (Lock | TryLock, TTL 5 s) watching its lock context, optional waiter, loss injected at every scheduling point (etcd: revoke the holder's lease; redis: hold longer than the TTL in virtual time); all interleavings of the threads' backend requests; non-trivial = distinct schedules in which the holder lost the lock while holding it")
+	c.SetRule("holder (Lock | TryLock, TTL 5 s; etcd: under a caller context without a deadline or with a deadline one TTL away) watching its lock context, optional waiter, loss injected at every scheduling point (etcd: revoke the holder's lease; redis: hold longer than the TTL in virtual time); all interleavings of the threads' backend requests; non-trivial = distinct schedules in which the holder lost the lock while holding it")
 	c.Assume("etcd = memetcd; the real clientv3 lessor keep-alive loop runs against the fake LeaseKeepAlive stream under virtual time, so the measured notification delay is the client's")
 	c.Bound("keepalive_interval_allowed", c19Interval.String())
 	b := world.NewBackend(dir, true)
@@ -195,6 +204,9 @@ func c19Explore(t *testing.T, c *vcore.Ctx) {
 		for _, op := range []string{"lock", "trylock"} {
 			for _, w := range []bool{false, true} {
 				cases = append(cases, c19Case{Backend: be, HolderOp: op, Waiter: w})
+				if be == "etcd" {
+					cases = append(cases, c19Case{Backend: be, HolderOp: op, Waiter: w, HolderCtx: "deadline"})
+				}
 			}
 		}
 	}
